@@ -273,9 +273,10 @@ class C14(Property):
                 ctx.count("decimal-exact")
             elif worst <= scale * Fraction(1, 10 ** 12):
                 ctx.count("decimal-rounded")
-                ctx.fail("float:add-sub-cancel:binary-rounding",
-                         f"(a+b)-b differs from a by {float(worst):.3g} (binary float rounding): a={a} b={b} result={r}",
-                         {"stream": "decimal", "a": _dump(a), "b": _dump(b)})
+                if ctx.histogram.get("decimal-rounded", 0) <= 8:      # keep room under the framework's 200-failure cap
+                  ctx.fail("float:add-sub-cancel:binary-rounding",
+                           f"(a+b)-b differs from a by {float(worst):.3g} (binary float rounding): a={a} b={b} result={r}",
+                           {"stream": "decimal", "a": _dump(a), "b": _dump(b)})
             else:
                 ctx.fail("add_sub:not-restored", f"(a+b)-b = {r} is far from a = {a} (b = {b})", {"stream": "decimal", "a": _dump(a), "b": _dump(b)})
 
